@@ -13,7 +13,8 @@ assumed contracts, spec functions, lemmas).  Directives:
   //@   spec                             following lines spliced between signature and body
   //@   loop <n> [binder=<id>] [match=<regex>]   following lines spliced after the n-th loop header
   //@   head                             following lines spliced at the top of the body
-  //@   insert before|after <literal>    following lines spliced before/after the first body line
+  //@   insert[_opt] before|after|after_block <literal>    following lines spliced before/after the first body line
+  //@                                          containing the literal (after_block: after the block opened on that line)
   //@                                    containing the literal (lost literal => LostAnchor)
   //@ end
 
@@ -354,8 +355,8 @@ def parse_unit(path):
                     raise SystemExit('%s:%d: bad closure directive' % (path, ln_no))
                 cur_fn.closures.append((m.group(3).strip() + ('\x00%s' % m.group(2) if m.group(2) else '') + ('\x01' if copt else ''), m.group(1), '', ln_no))
                 section = ('closure', len(cur_fn.closures) - 1)
-            elif cmd == 'insert':
-                where = words[1]
+            elif cmd in ('insert', 'insert_opt'):
+                where = words[1] + ('?' if cmd == 'insert_opt' else '')
                 lit = d.split(None, 2)[2]
                 cur_fn.inserts.append((where, lit, '', ln_no))
                 section = ('insert', len(cur_fn.inserts) - 1)
@@ -438,6 +439,12 @@ def render_fn(sf, item, d, drops, em, canary, take_opts=()):
         sig = name_return(sig, ret)
     if canary:
         sig = re.sub(r'\bfn\s+(r#)?' + re.escape(item.name) + r'\b', 'fn ' + item.name + '__canary', sig, count=1)
+    if 'mutself' in opts:
+        # rule D10 (Verus: "does not yet support mut self"): the by-value receiver `mut self` is declared `self` and
+        # rebound by `let mut self_ = self;` as the first statement; every `self` token of the body becomes `self_`
+        sig, nsub = re.subn(r'\bmut\s+self\b', 'self', sig, count=1)
+        if nsub != 1:
+            raise LostAnchor('%s: option mutself but no `mut self` receiver' % item.name)
     em.emit(sig.rstrip(), sf.rel, R.line_of(src, sig_start))
     if d and d.spec[0].strip():
         spec = d.spec[0]
@@ -453,10 +460,18 @@ def render_fn(sf, item, d, drops, em, canary, take_opts=()):
                          'src_line': R.line_of(src, item.decl)})
         return
     em.emit_fixed('{', sf.rel, R.line_of(src, body_open))
+    if 'mutself' in opts:
+        em.emit_fixed('    let mut self_ = self;', 'unit', d.line if d else 0)
     if d and d.head[0].strip():
         em.emit(d.head[0], 'unit', d.head[1])
     # body with loop splices
     edits = apply_drops(sf, body_open + 1, body_close, drops)  # start -> (end, text)
+    if 'mutself' in opts:
+        for mm in re.finditer(r'(?<![A-Za-z0-9_])self(?![A-Za-z0-9_])', src[body_open + 1:body_close]):
+            k = body_open + 1 + mm.start()
+            if mask[k] and k not in edits:
+                edits[k] = (k + 4, 'self_')
+                drops['D10 mut-self receiver rebound'] = drops.get('D10 mut-self receiver rebound', 0) + 1
     splices = {}   # offset -> (text, unit_line) inserted *before* the char at offset, on own lines
     inline = {}    # offset -> text inserted inline
     if d:
@@ -496,6 +511,10 @@ def render_fn(sf, item, d, drops, em, canary, take_opts=()):
             # loops without invariants are allowed (Verus will complain if it needs one)
             pass
         for (where, lit, text, uline) in d.inserts:
+            ins_optional = where.endswith('?')
+            where = where.rstrip('?')
+            if ins_optional and src.find(lit, body_open + 1, body_close) < 0:
+                continue
             if where.endswith('_last'):
                 k = src.rfind(lit, body_open + 1, body_close)
                 where = where[:-5]
@@ -507,6 +526,16 @@ def render_fn(sf, item, d, drops, em, canary, take_opts=()):
             le = src.find('\n', k)
             if where == 'before':
                 splices[ls] = (text, uline)
+            elif where == 'after_block':
+                # after the closing brace of the block opened on the anchor line
+                bo = k
+                while bo < le and not (src[bo] == '{' and mask[bo]):
+                    bo += 1
+                if bo >= le:
+                    raise LostAnchor('%s: anchor %r opens no block on its line' % (d.path, lit))
+                bc = R.match_delim(src, mask, bo)
+                le2 = src.find('\n', bc)
+                splices[le2 + 1] = (text, uline)
             else:
                 splices[le + 1] = (text, uline)
     if d:
